@@ -221,6 +221,12 @@ def _main(modname, argv=None):
     if args.replay:
         with open(args.replay) as f:
             rp = json.load(f)
+        want_hs = str(rp.get("seed", seed))
+        if os.environ.get("PYTHONHASHSEED", "0") != want_hs and not os.environ.get("VERIF_REEXEC"):
+            # the interpreter's hash seed follows the workload seed (./check); replay under the one the case was found with
+            os.execve(sys.executable, [sys.executable, "-W", "ignore", "-c", "import sys; from vlib import runner; sys.exit(runner.main(sys.argv[1], sys.argv[2:]))",
+                                       modname] + list(argv if argv is not None else sys.argv[1:]),
+                      dict(os.environ, PYTHONHASHSEED=want_hs, VERIF_SEED=want_hs, VERIF_REEXEC="1"))
         ctx = Ctx(rp.get("tier", tier), rp.get("seed", seed))
         if hasattr(mod, "setup_worker"):
             mod.setup_worker(ctx)
